@@ -36,7 +36,8 @@ fn main() {
     let known = load_known();
 
     // Watchdog: no progress at all for a long time means a hang in harness or code; inconclusive.
-    std::thread::spawn(|| {
+    let wd_id = id.clone();
+    std::thread::spawn(move || {
         let mut last = PROGRESS.load(std::sync::atomic::Ordering::Relaxed);
         let mut idle = 0;
         loop {
@@ -49,6 +50,16 @@ fn main() {
                 last = now;
             }
             if idle >= 180 {
+                // Failures found before the hang are violations all the same (unshrunk cases).
+                let pending: Vec<Violation> = UNSHRUNK.lock().map(|u| u.iter().map(|v| Violation { phase: v.phase.clone(), sig: v.sig.clone(), msg: v.msg.clone(), case: v.case.clone() }).collect()).unwrap_or_default();
+                if !pending.is_empty() {
+                    for v in &pending {
+                        let path = write_replay(&wd_id, v);
+                        println!("--- {} [{}] {} (reported by the watchdog after {idle} s without progress; case not shrunk)", v.phase, v.sig, v.msg);
+                        println!("VIOLATION property={wd_id} replay={path}");
+                    }
+                    std::process::exit(1);
+                }
                 println!("INCONCLUSIVE: watchdog: no progress for {idle} s");
                 std::process::exit(2);
             }
